@@ -264,4 +264,17 @@ def run_all(scratch, entries, jobs=14, mem_budget_gb=None, log=print):
     with ThreadPoolExecutor(jobs) as ex:
         for name, r in ex.map(work, todo):
             results[name] = r
+    # Escalation: a harness that died of memory (typical for changed code that explores more paths) is
+    # re-run once, alone, with most of the machine's memory, so that the change gets a verdict instead of
+    # "undecided".  Never happens on a tree where every harness fits its declared memory.
+    big = int(os.environ.get("VERIF_MEM_RETRY_GB", "40"))
+    for e, key in todo:
+        name = e.get("id", e["harness"])
+        r = results.get(name)
+        if r and any(v == "undecided" for v in r["obligations"].values()) and ("memory" in r.get("reason", "") or "killed" in r.get("reason", "")) and e.get("mem_gb", 6) < big:
+            log(f"  [kani] {name}: retrying alone with {big} GB")
+            e2 = dict(e, mem_gb=big, timeout=max(e.get("timeout", 300), 2400))
+            name2, r2 = work((e2, key))
+            r2["retried_with_gb"] = big
+            results[name] = r2
     return results
